@@ -86,3 +86,72 @@ def bin80_axiom(v: Str):
     requires(is_bitstr(v) and len(v) % 8 == 0 and len(v) >= 8 and v[:8] == '10000000')
     ensures(hex80_even(bits_val(v)))
     ensures(len(hex80_bytes(bits_val(v))) == len(v) // 8 - 1)
+
+
+def oer_first(v, nb) -> Int:
+    """the next octet of an OER decoder holding the integer v with nb bits unread"""
+    return (v // pow2(nb - 8)) % 256
+
+
+def oer_ld_size(v, nb) -> Int:
+    """X.696 8.6: bits occupied by a length determinant: one octet, or 1 + n octets in the long form 1nnnnnnn"""
+    return 8 if oer_first(v, nb) < 128 else 8 + 8 * (oer_first(v, nb) - 128)
+
+
+def oer_ld_val(v, nb) -> Int:
+    if oer_first(v, nb) < 128:
+        return oer_first(v, nb)
+    return (v // pow2(nb - 8 - 8 * (oer_first(v, nb) - 128))) % pow2(8 * (oer_first(v, nb) - 128))
+
+
+def oer_enum_size(v, nb) -> Int:
+    """X.696 11: an ENUMERATED value occupies one octet (0xxxxxxx) or 1 + n octets (1nnnnnnn, then n octets)"""
+    return 8 if oer_first(v, nb) < 128 else 8 + 8 * (oer_first(v, nb) - 128)
+
+
+def oer_tag_cont(v, nb) -> Int:
+    """number of subsequent tag octets starting with nb bits unread: up to and including the first octet < 128"""
+    if nb < 8 or oer_first(v, nb) < 128:
+        return 1
+    return 1 + oer_tag_cont(v, nb - 8)
+
+
+def oer_tag_len(v, nb) -> Int:
+    """X.696 8.7: a tag is one octet unless its low six bits are all ones, then subsequent octets follow"""
+    if oer_first(v, nb) % 64 != 63:
+        return 1
+    return 1 + oer_tag_cont(v, nb - 8)
+
+
+def oer_tag_cont__facts(v, nb, r):
+    return r >= 1
+
+
+def oer_ld_size__facts(v, nb, r):
+    return r >= 8 and r % 8 == 0
+
+
+def oer_tag_len__facts(v, nb, r):
+    return r >= 1
+
+
+@lemma
+def fact_oer_ld_size(v: Int, nb: Int):
+    nofacts("oer_ld_size")
+    ensures(oer_ld_size(v, nb) >= 8 and oer_ld_size(v, nb) % 8 == 0)
+
+
+@lemma
+def fact_oer_tag_cont(v: Int, nb: Int):
+    nofacts("oer_tag_cont")
+    ensures(oer_tag_cont(v, nb) >= 1)
+    decreases(nb)
+    if nb >= 8 and oer_first(v, nb) >= 128:
+        fact_oer_tag_cont(v, nb - 8)
+
+
+@lemma
+def fact_oer_tag_len(v: Int, nb: Int):
+    nofacts("oer_tag_len")
+    ensures(oer_tag_len(v, nb) >= 1)
+    fact_oer_tag_cont(v, nb - 8)
